@@ -289,6 +289,15 @@ DEF_VIOLATIONS = [
     ("computed-field-unknown-name", lambda: [{"kind": "record", "name": "ZzRec", "tparams": [], "fields": [("a", P("int32"))], "computed": [("c", "nope + 1")]}]),
     ("computed-field-ill-typed", lambda: [{"kind": "record", "name": "ZzRec", "tparams": [], "fields": [("a", P("int32")), ("s", P("string"))], "computed": [("c", "a * s")]}]),
     ("computed-field-cycle", lambda: [{"kind": "record", "name": "ZzRec", "tparams": [], "fields": [("a", P("int32"))], "computed": [("c", "d + 1"), ("d", "c + 1")]}]),
+    # a variable declared by a !switch case is in scope in that case's expression only - not in the expression of another computed
+    # field the case refers to, whichever of the two is declared (and therefore resolved) first
+    ("computed-field-uses-switch-variable-of-its-referrer", lambda: [{"kind": "record", "name": "ZzRec", "tparams": [], "fields": [("u", ("union", False, [(None, P("int32")), (None, P("float32"))]))],
+                                                                      "computed": [("a", "\n      !switch u:\n        int v: b\n        float: 0"), ("b", "v")]}]),
+    ("computed-field-uses-switch-variable-of-its-referrer-declared-first", lambda: [{"kind": "record", "name": "ZzRec", "tparams": [], "fields": [("u", ("union", False, [(None, P("int32")), (None, P("float32"))]))],
+                                                                                     "computed": [("b", "v"), ("a", "\n      !switch u:\n        int v: b\n        float: 0")]}]),
+    ("computed-field-of-other-record-uses-switch-variable", lambda: [{"kind": "record", "name": "ZzInner", "tparams": [], "fields": [("x", P("int32"))], "computed": [("c", "w + x")]},
+                                                                      {"kind": "record", "name": "ZzRec", "tparams": [], "fields": [("inner", ("named", "ZzInner", [])), ("o", ("opt", P("int32")))],
+                                                                       "computed": [("a", "\n      !switch o:\n        int w: inner.c\n        _: 0")]}]),
     ("computed-field-bad-index", lambda: [{"kind": "record", "name": "ZzRec", "tparams": [], "fields": [("v", ("vec", P("int32"), 3))], "computed": [("c", "v[7]")]}]),
 ] + [("cycle-" + k, (lambda k=k: k)) for k in CYCLES]
 
